@@ -2,6 +2,7 @@
 EXTENDS PyClass, Json
 
 ShowV(v) == CASE v.t = "int" -> ToString(v.n)
+              [] v.t = "float" -> ToString(v.n) \o ".0"
               [] v.t = "bool" -> IF v.n = 1 THEN "True" ELSE "False"
               [] v.t = "none" -> "None"
               [] v.t = "err" -> "ERR"
